@@ -359,8 +359,8 @@ fn c16_linebuffer_read_error() {
 // property of C02 / the exposure properties of C14 follow by induction over
 // fill/consume rounds -- that induction is argued, not mechanised.
 
-const B0: usize = 4; // initial buffer length
-const R_N: usize = 3; // bytes the reader can still deliver
+const B0: usize = 3; // initial buffer length
+const R_N: usize = 2; // bytes the reader can still deliver
 
 struct StepReader {
     src: [u8; R_N],
